@@ -313,6 +313,8 @@ _DEPTH = [0]
 def _loop_text(q, n, r):
     """canonical text of a loop the summary does not enter: the decision table of one generic iteration (loop-carried
     locals symbolic), rendered recursively; falls back to the statements of the body when that is not possible"""
+    if not isinstance(n, (ast.For, ast.While)):
+        raise sympath.Unsupported('a %s statement is summarised as one opaque step' % type(n).__name__.lower())
     body = [st for st in n.body if not isinstance(st, ast.Pass)]
     btxt = None
     if body and _CTX and _DEPTH[0] < 2:
